@@ -26,13 +26,28 @@ def main(argv):
         else:
             total = params["cases"]
             cases = [only] if only is not None else range(shard, total, nshards)
+            import signal
+
+            class CaseTimeout(BaseException):
+                pass
+
+            def on_alarm(signum, frame):
+                raise CaseTimeout()
+            signal.signal(signal.SIGALRM, on_alarm)
+            limit = float(getattr(module, "CASE_TIMEOUT", 60))
             for case in cases:
                 ctx.case = case
                 rng = case_rng(seed, prop, 0, case)
+                signal.setitimer(signal.ITIMER_REAL, limit)
                 try:
                     module.run_case(ctx, rng, case)
+                except CaseTimeout:
+                    ctx.count("watchdog_timeouts")
+                    ctx.extra.setdefault("watchdog_cases", []).append(case)
                 except Exception:
                     ctx.harness_errors.append({"case": case, "tb": traceback.format_exc()[-2500:]})
+                finally:
+                    signal.setitimer(signal.ITIMER_REAL, 0)
                 ctx.count("evaluations")
     finally:
         if hasattr(module, "teardown"):
